@@ -3,5 +3,6 @@ CONSTANT ShapeBudget = 0
 CONSTANT MaxListLen = 1
 CONSTANT VarModes = {}
 CONSTANT Styles = {}
+CONSTANT StepAliases = {}
 INIT TInit
 NEXT TNext
